@@ -291,9 +291,10 @@ struct span {
 private:
     struct static_storage {
         constexpr static_storage() = default;
-        constexpr static_storage(T* ptr, size_type /*sz*/) noexcept
+        constexpr static_storage(T* ptr, [[maybe_unused]] size_type sz) noexcept
             : _data{ptr}
         {
+            TETL_PRECONDITION(sz == Extent);
         }
 
         [[nodiscard]] constexpr auto data() const noexcept { return _data; }
